@@ -117,6 +117,23 @@ def desugar_continue(text, log, where):
     if total: log.add('R14', where, '%d `if .. { ..; continue; }` in for-loops' % total, 'if .. { .. } else { rest of the loop body }')
     return text
 
+def _assign_end(text, rhs0):
+    """end of the right-hand side of an assignment that starts at rhs0: the `;` at depth 0, or -- when the assignment is the tail of its
+    block (no `;`) -- the position of the enclosing closing brace.  Returns (index, is_tail)."""
+    j, n = rhs0, len(text)
+    while j < n:
+        k = L.skip_trivia_and_literals(text, j)
+        if k != j: j = k; continue
+        c = text[j]
+        if c in L.OPEN: j = L.match_close(text, j) + 1; continue
+        if c == ';': return j, False
+        if c in ')}]':
+            e = j
+            while e > rhs0 and text[e - 1] in ' \t\n': e -= 1
+            return e, True
+        j += 1
+    raise ValueError('no end of assignment')
+
 def ndarray_index(text, names, log, where):
     """R17: ndarray `Index`/`IndexMut` sugar on the arrays `names` (declared as Array1/Array2 in the function) becomes explicit
     accessor calls of the stand-in:   X[(i, j)] = E;  =>  let vx_tmp = E; X.vx_set(i, j, vx_tmp);      X[(i, j)]  =>  (*X.vx_at(i, j))
@@ -135,13 +152,13 @@ def ndarray_index(text, names, log, where):
             if mm: hit = (i, m.group(1), br, bc, bc + 1 + len(mm.group(0)))
         if hit is None: break
         i, name, br, bc, rhs0 = hit
-        e = L.stmt_end(text, rhs0)
+        e, tail = _assign_end(text, rhs0)
         idx = text[br + 1:bc].strip()
         if idx.startswith('(') and idx.endswith(')'): idx = idx[1:-1].strip()
         ls = text.rfind('\n', 0, i) + 1
         ind = text[ls:i]
         rhs = text[rhs0:e].rstrip()
-        text = text[:i] + 'let vx_tmp = ' + rhs + ';\n' + ind + '%s.vx_set(%s, vx_tmp);' % (name, idx) + text[e + 1:]
+        text = text[:i] + 'let vx_tmp = ' + rhs + ';\n' + ind + '%s.vx_set(%s, vx_tmp);' % (name, idx) + ('\n' + text[e:] if tail else text[e + 1:])
         n_w += 1
     # reads
     while True:
@@ -230,3 +247,14 @@ def expand_format_macros(text, log, where):
     text2 = re.sub(r'\.to_string\(\)', '.vx_show()', text)
     if n or text2 != text: log.add('R16', where, '%d format!/write! macros, %d to_string() calls' % (n, text.count('.to_string()')), 'concatenation over the formatting model (vx_lit / vx_show / vx_concatN / vx_write)')
     return text2
+
+def desugar_enumerate(text, log, where):
+    """R22: `for (I, X) in E.iter().enumerate() {`  =>  `for I in 0..E.len() {` + `let X = &E[I];` (Verus has no spec for Enumerate)."""
+    n = [0]
+    def rep(m):
+        n[0] += 1
+        ind = m.group(1)
+        return '%sfor %s in 0..%s.len() {\n%s    let %s = &%s[%s];' % (ind, m.group(2), m.group(4), ind, m.group(3), m.group(4), m.group(2))
+    new = re.sub(r'(?m)^([ \t]*)for \((\w+), (\w+)\) in (\w+)\.iter\(\)\.enumerate\(\) \{$', rep, text)
+    if n[0]: log.add('R22', where, '%d `for (i, x) in v.iter().enumerate()`' % n[0], 'for i in 0..v.len() { let x = &v[i]; .. }')
+    return new
